@@ -84,6 +84,9 @@ def parse_string(
         nshandler = nshandling.get_nshandler_for_lang(lang)
     else:
         nshandler = nshandling.NsHandler(siteinfo)
+    if _input and not _input.endswith("\n"):
+        # the last line of a page is a line like the others (a preformatted line is closed by its line end)
+        _input += "\n"
     article = compat.parse_txt(
         _input,
         title=title,
